@@ -54,6 +54,8 @@ func c02(r *hx.Run) {
 		{[]string{"C", "D0", "R01", "U01"}, g6, true},
 		{[]string{"C", "C~h", "U01", "U01b"}, g6, true},
 		{[]string{"C", "R01", "R01b/u", "V01/u"}, g6, true},
+		{[]string{"C", "U01", "U10", "U12"}, g6, true}, // U10 re-commits to a consumed commitment: it must be skipped, not block U12
+		{[]string{"C", "R01", "R10", "R12"}, g6, true},
 		{[]string{"C", "U01", "U01b", "U12", "U1b2"}, g4[:4], false},
 	}
 	if r.Tier == "thorough" {
